@@ -206,7 +206,7 @@ func (i memInfo) Mode() fs.FileMode {
 func (i memInfo) ModTime() time.Time { return time.Time{} }
 func (i memInfo) IsDir() bool        { return i.dir }
 func (i memInfo) Sys() any           { return nil }
-func (f *memFile) Close() error               { return nil }
+func (f *memFile) Close() error      { return nil }
 func (f *memFile) Read(p []byte) (int, error) {
 	if f.dir {
 		return 0, &fs.PathError{Op: "read", Path: f.name, Err: errors.New("is a directory")}
